@@ -1,10 +1,11 @@
 #!/bin/bash
 # Runs the repository's pinned baseline (guard OFF) and compares the set of
 # passing tests with /root/.vp/BASELINE.json (stable_pass).  exit 0 iff all
-# stable tests still pass.
+# stable tests still pass.  BASELINE_REPO=<dir> runs it in another checkout.
 unset RADICAL_PILOT_VERIF
+R=${BASELINE_REPO:-/repo}
 OUT=$(mktemp /tmp/baseline.XXXXXX.xml)
-cd /repo && /venv/bin/python -m pytest -ra -q -p no:cacheprovider --timeout=900 \
+cd $R && PYTHONPATH=$R/src /venv/bin/python -m pytest -ra -q -p no:cacheprovider --timeout=900 \
     --continue-on-collection-errors --junitxml=$OUT >/dev/null 2>&1
 /venv/bin/python - "$OUT" <<'PY'
 import sys, json, xml.etree.ElementTree as ET
